@@ -76,6 +76,8 @@ impl Out {
 fn scan_err(e: &TokenizerError) -> String {
     match e {
         TokenizerError::BadChar { line, col, char } => format!("{} {} {}", line, col, *char as u32),
+        #[allow(unreachable_patterns)]
+        other => format!("0 0 other:{:?}", other),
     }
 }
 
@@ -271,6 +273,38 @@ fn run_case(line: &str, cap: &mut Capture, out: &mut Out, fresh: &[String]) {
             for (k, t) in f[3..].iter().enumerate() {
                 process_text(id, k, &unhex(t), tab, &mut vars, cap, out, fresh);
             }
+        }
+        "charclass" => {
+            // exhaustive over every Unicode scalar value c: how is `prefix ++ c ++ suffix` scanned?
+            let prefix = unhex(f[2]);
+            let suffix = unhex(f[3]);
+            let mut runs: Vec<(String, u32, u32)> = Vec::new();
+            for cp in 0..=0x10FFFFu32 {
+                let c = match char::from_u32(cp) {
+                    Some(c) => c,
+                    None => continue,
+                };
+                let text = format!("{}{}{}", prefix, c, suffix);
+                let sig = match Tokenizer::tokenize(&text, 4) {
+                    Ok(t) => t
+                        .tokens
+                        .iter()
+                        .map(|t| format!("{}.{}.{}", tag_code(&t.kind), t.lexeme.chars().count(), t.col))
+                        .collect::<Vec<_>>()
+                        .join("+"),
+                    Err(TokenizerError::BadChar { line, col, char }) => {
+                        format!("B{}.{}.{}", line, col, if char == c { "c".to_string() } else { format!("{}", char as u32) })
+                    }
+                    #[allow(unreachable_patterns)]
+                    Err(_) => "E?".to_string(),
+                };
+                match runs.last_mut() {
+                    Some(r) if r.0 == sig && (r.2 + 1 == cp || (r.2 == 0xD7FF && cp == 0xE000)) => r.2 = cp,
+                    _ => runs.push((sig, cp, cp)),
+                }
+            }
+            let body: Vec<String> = runs.iter().map(|r| format!("{}:{:x}-{:x}", r.0, r.1, r.2)).collect();
+            out.line(id, &format!("CHARCLASS {} {}", runs.len(), body.join(",")));
         }
         "print" => {
             let v = parse_valuedesc(f[2]);
